@@ -502,14 +502,20 @@ func checkC20Run(root string, rec *ev.Recorder, run *c20Run, histKey string, tag
 			panic(fmt.Sprintf("harness: image %d: %v", img.idx, r.harness))
 		}
 		known := inKnownWindow(run, img)
-		nt := rejectedWindow(run, img) || known
+		rejected := rejectedWindow(run, img) || known
+		// non-trivial: the log is ahead of the acknowledged prefix (the entry
+		// of a mutation that has not been answered yet is on disk)
+		nt := img.inflight >= 0 && run.ops[img.inflight].Kind != "restart" && img.appended
 		labels := append([]string{"fileop:" + img.kind}, tags...)
 		if img.inflight >= 0 {
 			labels = append(labels, "inflight:"+run.ops[img.inflight].Kind)
 		} else {
 			labels = append(labels, "inflight:none")
 		}
-		if nt {
+		if nt && !rejected {
+			labels = append(labels, "window:accepted-mutation-appended-not-yet-acknowledged")
+		}
+		if rejected {
 			labels = append(labels, "window:rejected-mutation-in-log")
 			if img.endFile {
 				labels = append(labels, "window:rollback-after-END-rename")
@@ -517,7 +523,7 @@ func checkC20Run(root string, rec *ev.Recorder, run *c20Run, histKey string, tag
 		}
 		if nseg := segmentFiles(img); nseg > 1 {
 			labels = append(labels, "segments>1")
-			if nt {
+			if rejected {
 				labels = append(labels, "window:cross-segment-rollback")
 			}
 		}
@@ -717,7 +723,7 @@ func c20Witness(t *testing.T, rec *ev.Recorder, root string) {
 
 func TestC20(t *testing.T) {
 	rec := ev.New(t, "C20")
-	rec.Rule("rapid-generated mutation histories (put, delete, prefix append over 3 children so that conflicts are frequent, prefix remove, import with overlapping keys, remove-keys, clean restart; 5..30 mutations, thorough 5..60; one history in a hundred (thorough: twenty), plus one fixed history per run, with 0.7-2.1 MiB values arranged so that the segment cycles and a rejected append is rolled back across segments; one in four with a 20 us flush ticker) run through the real Start loop. Every MkdirAll/OpenFile/Write/Sync/Close/Rename/Remove of the WAL library yields one crash image (copy of the log directory) tagged (mutations completed, mutation in flight); ALL images of a history are reopened with aof.New and read back (Get + PrefixList of every alphabet key). One evaluation = one image. Non-trivial: the image was taken while the log contains the entry of a mutation the store rejects (from the write of that entry to the end of its rollback). Distinct = distinct (history, image index).")
+	rec.Rule("rapid-generated mutation histories (put, delete, prefix append over 3 children so that conflicts are frequent, prefix remove, import with overlapping keys, remove-keys, clean restart; 5..30 mutations, thorough 5..60; one history in a hundred (thorough: twenty), plus one fixed history per run, with 0.7-2.1 MiB values arranged so that the segment cycles and a rejected append is rolled back across segments; one in four with a 20 us flush ticker) run through the real Start loop. Every MkdirAll/OpenFile/Write/Sync/Close/Rename/Remove of the WAL library yields one crash image (copy of the log directory) tagged (mutations completed, mutation in flight); ALL images of a history are reopened with aof.New and read back (Get + PrefixList of every alphabet key). One evaluation = one image. Non-trivial: the image was taken while the log is ahead of the acknowledged prefix, i.e. the entry of the in-flight mutation is already in a segment file and the client has no answer yet (for a mutation the store rejects this lasts from the write of its entry to the end of its rollback; those images are labelled window:rejected-mutation-in-log). Distinct = distinct (history, image index).")
 	rec.Assume(
 		"crash = the process stops (SIGKILL, panic, OOM kill): everything handed to the kernel survives, so a copy of the directory at a file-operation boundary is the post-crash image; power loss / torn sectors are C22's subject",
 		"granularity is the file-operation boundary named by the property's quantifier; a write(2) is not split",
